@@ -337,13 +337,14 @@ type c46Outcome struct {
 	Done    bool        // all handles done
 	Stuck   string
 	StuckMode string // spinning | quiescent
+	Leak      bool   // the actor system is left running (quiescent stuck graph)
 	Slow    string
 	RunErr  error
 	Late    int64
 	Elapsed time.Duration
 }
 
-var c46Watchdog = 30 * time.Second
+var c46Watchdog = 20 * time.Second
 
 // c46Progress is a system-wide progress signature: number of actors and the sum of the
 // messages they processed (the case runs on its own actor system).
@@ -364,6 +365,29 @@ func c46CPU() time.Duration {
 	var ru syscall.Rusage
 	_ = syscall.Getrusage(syscall.RUSAGE_SELF, &ru)
 	return time.Duration(ru.Utime.Nano() + ru.Stime.Nano())
+}
+
+// c46BlockedInPut counts the goroutines that are inside the blocking put of a bounded
+// mailbox's ring buffer.
+func c46BlockedInPut() int {
+	buf := make([]byte, 8<<20)
+	n := runtime.Stack(buf, true)
+	return strings.Count(string(buf[:n]), "(*RingBuffer).put(")
+}
+
+// c46Settle waits (bounded) until no actor of the system processes messages any more, so
+// that stopping the system does not tear down sub-pipelines that are still winding down
+// (e.g. the longer inputs of a completed Zip).
+func c46Settle(sys actor.ActorSystem) {
+	n1, s1 := c46Progress(sys)
+	for i := 0; i < 100; i++ {
+		time.Sleep(30 * time.Millisecond)
+		n2, s2 := c46Progress(sys)
+		if n1 == n2 && s1 == s2 {
+			return
+		}
+		n1, s1 = n2, s2
+	}
 }
 
 var c46DumpOnce sync.Once
@@ -424,11 +448,18 @@ func c46Await(sys actor.ActorSystem, hs []StreamHandle, o *c46Outcome) {
 				}
 			}
 			burn := float64(c46CPU()-cpu0) / float64(time.Since(t0))
+			putNote := ""
 			o.StuckMode = "quiescent"
-			if burn > 0.1 {
+			if burn > 0.5 {
 				o.StuckMode = "spinning" // nothing is processed and yet the process burns CPU
 			}
-			o.Stuck = fmt.Sprintf("no actor of the system processed a message for 10 s after a %s watchdog; live actors=%d processed=%d handles not done=%v; process CPU over that window: %.2f cores", c46Watchdog, n2, s2, pending, burn)
+			// dispatcher workers (or other senders) spinning in the blocking Enqueue of a
+			// full BoundedMailbox show up in the goroutine stacks
+			if n := c46BlockedInPut(); n > 0 {
+				o.StuckMode = "senders-blocked-on-full-mailbox"
+				putNote = fmt.Sprintf("; %d goroutine(s) inside RingBuffer.put with GOMAXPROCS=%d", n, runtime.GOMAXPROCS(0))
+			}
+			o.Stuck = fmt.Sprintf("no actor of the system processed a message for 10 s after a %s watchdog; live actors=%d processed=%d handles not done=%v; process CPU over that window: %.2f cores%s", c46Watchdog, n2, s2, pending, burn, putNote)
 			return
 		}
 	}
@@ -514,8 +545,14 @@ func (c *c46Case) run(sys actor.ActorSystem) c46Outcome {
 	c46Await(sys, hs, &o)
 	o.Elapsed = time.Since(t0)
 	if !o.Done {
-		for _, h := range hs {
-			h.Abort()
+		// a quiescent stuck graph is left alone (tearing it down concurrently with its
+		// sinks only adds unrelated shutdown races); a spinning one must be stopped
+		if o.StuckMode == "quiescent" {
+			o.Leak = true
+		} else {
+			for _, h := range hs {
+				h.Abort()
+			}
 		}
 		return o
 	}
@@ -821,7 +858,7 @@ func TestVerif_C46(t *testing.T) {
 	r := verifrt.Start(t, "C46")
 	defer r.Finish()
 	r.Rule("case = one junction graph over unique (source,index) elements on a fresh actor system: Merge / Concat / Zip over 1-5 sources (Of, FromChannel unbuffered/buffered, Unfold; lengths 0-1000 incl. empty, unequal and the demand-window sizes 64/160/224/256/448/512; optional Map or Buffer(1|64) per source), Broadcast / Balance / Partition of one source into 1-5 branches (each branch with its own optional flow, Collect or ForEach sink and consumer pace: fast, periodic sleep, long stall; partition functions uniform, all-to-one-branch, runs, and with out-of-range results which the documentation drops), and the composites Merge(Balance), Merge(Partition), Zip(Broadcast); oracle = reference predicates on the collected outputs (union + per-source order; concatenation; positional tuples with the length of the shortest source; every branch equals the input; disjoint union + branch order; branch = the elements its function selects, in order), all handles Done with nil Err, no delivery after Done; non-trivial = at least 2 sources/branches and at least 10 elements; distinct by graph text")
-	r.Assume("ten seconds without any processed message anywhere in the case's private actor system (after a 30 s watchdog) means the graph is stuck")
+	r.Assume("ten seconds without any processed message anywhere in the case's private actor system (after a 20 s watchdog) means the graph is stuck")
 
 	if v := os.Getenv("C46_CASE_SEED"); v != "" {
 		seed, _ := strconv.ParseInt(v, 10, 64)
@@ -836,7 +873,9 @@ func TestVerif_C46(t *testing.T) {
 			o := c.run(sys)
 			c.judge(r, o)
 			r.Case(c.describe(), true)
-			c46StopSystem(sys)
+			if !o.Leak {
+				c46StopSystem(sys)
+			}
 			if !o.Done {
 				break
 			}
@@ -868,7 +907,10 @@ func TestVerif_C46(t *testing.T) {
 			}(i)
 		}
 		wg.Wait()
-		c46StopSystem(sys)
+		if !outs[0].Leak {
+			c46Settle(sys)
+			c46StopSystem(sys)
+		}
 		for i, c := range cases {
 			o := outs[i]
 			c.judge(r, o)
